@@ -91,6 +91,17 @@ theorem initTable_tinv {sb bb : Nat} (h1 : 1 < 2 ^ sb) :
   · show 2 ≤ 1 + 1
     omega
 
+theorem initTable_RS {sb bb : Nat} (h1 : 1 < 2 ^ sb) : RS (initTable sb bb) := by
+  show 1 + 1 = Cn.countOcc (rd (initTable sb bb).occs) (Array.replicate (2 ^ sb) (default : Node)).size
+  rw [Array.size_replicate]
+  have : Cn.countOcc (rd (initTable sb bb).occs) (2 ^ sb) = [0, 1].length := by
+    apply Cn.countOcc_eq_length (by simp)
+    · intro i hi; simp at hi; omega
+    · intro i _
+      rw [initTable_occ h1]; simp
+  rw [this]; rfl
+
+
 /-- **every new manager is good** — any `storage_bits ≤ 31` large enough to hold the terminal, any
 number of buckets, any cache size -/
 theorem init_good {sb bb cb : Nat} {s : St} (h : St.newWith sb bb cb = .ok s) : Good s := by
@@ -121,7 +132,7 @@ theorem init_good {sb bb cb : Nat} {s : St} (h : St.newWith sb bb cb = .ok s) : 
       by_cases h2 : 2 ≤ i
       · rw [if_neg]; intro x; have := hfree i h2; rw [this] at x; cases x.2
       · rw [if_neg]; intro x; exact h2 x.1
-    refine ⟨hw, ⟨_, hI⟩, ⟨?_, ?_, ?_, ?_, ?_, ?_⟩, ?_, ?_, ?_⟩
+    refine ⟨hw, ⟨_, hI⟩, ⟨?_, ?_, ?_, ?_, ?_, ?_⟩, ?_, ?_, ?_, ?_⟩
     · intro i j n hi; rw [hnone] at hi; cases hi
     · exact hnone 1
     · intro i n hi; rw [hnone] at hi; cases hi
@@ -133,6 +144,7 @@ theorem init_good {sb bb cb : Nat} {s : St} (h : St.newWith sb bb cb = .ok s) : 
       rw [Cache.lookup_new] at hk; cases hk
     · show (rd (initTable sb bb).vals 1).var = 0
       rw [hval1]; rfl
+    · exact initTable_RS h1lt
 
 theorem init_good_default {bits : Nat} {s : St} (h : St.new bits = .ok s) : Good s := init_good h
 
